@@ -2,6 +2,7 @@ import PycModel.Parser.NT
 import PycModel.Spec.Tokens
 import PycModel.Spec.Expr
 import PycModel.Generated.ParserTables
+import PycModel.Properties.TablesPrec
 /-!
 # Table obligations shared by the parser-level properties
 
@@ -13,11 +14,6 @@ tables the code has *now*.
 namespace PycModel.Tables
 open PycModel
 
-def sameSet (a b : List String) : Bool := Spec.sameSet a b
-def sameMap (a b : List (String × Nat)) : Bool := a.all b.contains && b.all a.contains
-
-theorem model_binary_precedence : sameMap binaryPrecedence Generated.binaryPrecedence = true := by decide
-theorem model_assignment_ops : sameSet assignmentOps Generated.assignmentOps = true := by decide
 theorem model_storage_class : sameSet storageClass Generated.storageClass = true := by decide
 theorem model_function_spec : sameSet functionSpec Generated.functionSpec = true := by decide
 theorem model_type_qualifier : sameSet typeQualifier Generated.typeQualifier = true := by decide
@@ -30,18 +26,5 @@ theorem model_string_literal : sameSet stringLiteral Generated.stringLiteral = t
 theorem model_wstr_literal : sameSet wstrLiteral Generated.wstrLiteral = true := by decide
 theorem model_starts_expression : sameSet startsExpressionSet Generated.startsExpression = true := by decide
 theorem model_starts_statement : sameSet startsStatementSet Generated.startsStatement = true := by decide
-
-def spellingOf (kind : String) : String :=
-  ((Generated.opSpelling.find? (·.1 == kind)).map (·.2)).getD "?"
-
-/-- the parser's binary precedence table is C99 6.5.5–6.5.14: same operators, same ten levels -/
-theorem impl_prec_is_c99 :
-    (Generated.binaryPrecedence.all fun (k, p) => Spec.binLevel (spellingOf k) == p &&
-      Spec.binOps.contains (spellingOf k)) = true ∧
-    Generated.binaryPrecedence.length = Spec.binOps.length := by decide
-
-/-- assignment operators are C99 6.5.16's eleven -/
-theorem impl_assign_ops_c99 :
-    sameSet (Generated.assignmentOps.map spellingOf) Spec.assignOps = true := by decide
 
 end PycModel.Tables
